@@ -17,9 +17,6 @@ package recovery
 //@   at call indexHeader#1 assert [header-position] 512*(pipes.RecordSize*arg_record+arg_block) == hdrStart(arg_hdr) && 0 <= arg_block && arg_block < pipes.RecordSize
 //@   property C06
 //@   at call Seek#3 assert [resync-forward] arg_offset >= curr && arg_offset - curr < 512 && arg_offset % 512 == 0 && arg_whence == 0
-//@   at call Seek#2 cover [resync-on-parse-error] err != nil && err != io.EOF
-//@   property C16
-//@   at call Seek#2 cover [damaged-tail-is-skipped-not-fatal] err != nil && err != io.EOF
 //@   property C07
 //@   at call PurgeAllHeaders#1 assert [no-purge-unless-overwrite] overwrite
 //@   property C08
